@@ -242,6 +242,10 @@ func (tst *tsTable) TakeFileSnapshot(dst string) (success bool, err error) {
 func (tst *tsTable) createMetadata(dst string, snapshot *snapshot) {
 	var partNames []string
 	for i := range snapshot.parts {
+		// Memory parts are not copied into the file snapshot, so the manifest must not name them.
+		if snapshot.parts[i].mp != nil {
+			continue
+		}
 		partNames = append(partNames, partName(snapshot.parts[i].ID()))
 	}
 	data, err := json.Marshal(partNames)
